@@ -458,8 +458,10 @@ def write_evidence(ev):
     with open(os.path.join(VERIF, "schemas", "EVIDENCE.schema.json")) as f:
         schema = json.load(f)
     jsonschema.validate(ev, schema)
-    os.makedirs(os.path.join(VERIF, "evidence"), exist_ok=True)
-    with open(os.path.join(VERIF, "evidence", ev["property_id"] + ".json"), "w") as f:
+    # VERIF_EVIDENCE_DIR: runs against a modified copy of the repository (tools/seeded.py) must not overwrite the evidence of /repo
+    evdir = os.environ.get("VERIF_EVIDENCE_DIR") or os.path.join(VERIF, "evidence")
+    os.makedirs(evdir, exist_ok=True)
+    with open(os.path.join(evdir, ev["property_id"] + ".json"), "w") as f:
         json.dump(ev, f, indent=1, sort_keys=True)
         f.write("\n")
 
